@@ -39,20 +39,23 @@ Proof.
   exists j. apply In_zseq in I. split; [lia|auto].
 Qed.
 
+Section RA.
+Context `{RAi : RawAssume}.
+
 Ltac nfc := first [ apply NF_chk_ne; [|discriminate] | apply NF_chk_true ].
 
 Lemma G1_TRet_some : forall m n fds clk, G1 m ->
   (a_clk m < clk -> any_obj (a_tk m) = false) ->
-  (a_clk m < clk -> any_obj (fun j => a_rw m j && a_rwp m j) = false) ->
+  (raw_assume -> a_clk m < clk -> any_obj (fun j => a_rw m j && a_rwp m j) = false) ->
   (a_clk m < clk -> a_stale m = false -> forall e, min_expiry m = Some e ->
      a_clk m < e /\ clk <= Z.max (a_clk m) (if (w_call m =? 0) || (w_call m =? 2) then a_clk m + ceil_ms (e - a_clk m) else e)) ->
   G1 (mon_step m (TRet (Some n) fds clk)).
 Proof.
   intros m n fds clk G C602 C902 C04. lazy beta iota delta [mon_step]. repeat lift_let.
-  intros c Hc. pose proof (G c Hc) as N.
+  intros c Hc. pose proof (G c Hc) as N. pose proof (Act_all c Hc) as Ha.
   assert (SL : slept = true -> a_clk m < clk) by (unfold slept; intros H; apply Z.ltb_lt; exact H).
   assert (N2 : NF c m2).
-  { unfold m2, m1, m0. cbn in Hc. repeat (apply NF_chk_ne; [|intros ->; intuition discriminate]). exact N. }
+  { unfold m2, m1, m0. cbn in Ha. repeat (apply NF_chk_ne; [|intros ->; intuition discriminate]). exact N. }
   assert (E2 : a_tk m2 = a_tk m /\ a_rw m2 = a_rw m /\ a_rwp m2 = a_rwp m /\ a_stale m2 = a_stale m /\ a_tm m2 = a_tm m /\
                a_exp m2 = a_exp m /\ a_clk m2 = a_clk m /\ w_call m2 = w_call m).
   { unfold m2, m1, m0. autorewrite with monp monq. repeat split. }
@@ -65,14 +68,15 @@ Proof.
   { unfold m3. autorewrite with monp monq. repeat split; assumption. }
   clearbody m3. destruct E3 as (E3b & E3c & E3d & E3e & E3f & E3g & E3h).
   assert (N4 : NF c m4).
-  { unfold m4. cbn in Hc. apply NF_chk_ne; [exact N3|intros ->; intuition discriminate]. }
+  { unfold m4. cbn in Ha. apply NF_chk_ne; [exact N3|intros ->; intuition discriminate]. }
   assert (E4 : a_rw m4 = a_rw m /\ a_rwp m4 = a_rwp m /\ a_stale m4 = a_stale m /\ a_tm m4 = a_tm m /\
                a_exp m4 = a_exp m /\ a_clk m4 = a_clk m /\ w_call m4 = w_call m).
   { unfold m4. autorewrite with monp monq. repeat split; assumption. }
   clearbody m4. destruct E4 as (E4b & E4c & E4d & E4e & E4f & E4g & E4h).
   assert (N5 : NF c m5).
   { unfold m5. destruct (Z.eq_dec c 902) as [->|NE]; [|apply NF_chk_ne; assumption].
-    apply NF_chk_true; [exact N4|]. rewrite E4b, E4c. destruct slept; [|reflexivity]. rewrite (C902 (SL eq_refl)). reflexivity. }
+    apply NF_chk_true; [exact N4|]. rewrite E4b, E4c. destruct slept; [|reflexivity].
+    rewrite (C902 (Act_raw 902 Hc ltac:(cbn; tauto)) (SL eq_refl)). reflexivity. }
   assert (E5 : a_stale m5 = a_stale m /\ a_tm m5 = a_tm m /\ a_exp m5 = a_exp m /\ a_clk m5 = a_clk m /\ w_call m5 = w_call m).
   { unfold m5. autorewrite with monp monq. repeat split; assumption. }
   clearbody m5. destruct E5 as (E5d & E5e & E5f & E5g & E5h).
@@ -88,15 +92,15 @@ Proof.
       apply NF_chk_true; [exact N5|]. apply Z.ltb_lt. exact Q1. }
   clearbody m6. unfold m10, m9, m8, m7. intros H.
   cbn [fails m_fds m_tms m_tks m_evs m_rws m_loop m_wait m_iter m_spin] in H. revert H.
-  cbn in Hc. apply NF_chk_ne; [exact N6|intros ->; intuition discriminate].
+  cbn in Ha. apply NF_chk_ne; [exact N6|intros ->; intuition discriminate].
 Qed.
 
 Lemma G1_THang : forall m, G1 m -> any_obj (a_tm m) = false -> any_obj (a_tk m) = false ->
-  any_obj (fun j => a_rw m j && a_rwp m j) = false -> G1 (mon_step m THang).
+  (raw_assume -> any_obj (fun j => a_rw m j && a_rwp m j) = false) -> G1 (mon_step m THang).
 Proof.
-  intros m G C1 C2 C3 c Hc. pose proof (G c Hc) as N. lazy beta iota delta [mon_step]. repeat lift_let.
+  intros m G C1 C2 C3 c Hc. pose proof (G c Hc) as N. pose proof (Act_all c Hc) as Ha. lazy beta iota delta [mon_step]. repeat lift_let.
   assert (N0 : NF c m0).
-  { unfold m0. cbn in Hc. apply NF_chk_ne; [exact N|intros ->; intuition discriminate]. }
+  { unfold m0. cbn in Ha. apply NF_chk_ne; [exact N|intros ->; intuition discriminate]. }
   assert (E0 : a_tm m0 = a_tm m /\ a_tk m0 = a_tk m /\ a_rw m0 = a_rw m /\ a_rwp m0 = a_rwp m).
   { unfold m0. autorewrite with monp monq. repeat split. }
   clearbody m0. destruct E0 as (E0a & E0b & E0c & E0d).
@@ -113,13 +117,14 @@ Proof.
   { unfold m2. autorewrite with monp monq. repeat split; assumption. }
   clearbody m2. destruct E2 as (E2c & E2d).
   assert (N3 : NF c m3).
-  { unfold m3. cbn in Hc. apply NF_chk_ne; [exact N2|intros ->; intuition discriminate]. }
+  { unfold m3. cbn in Ha. apply NF_chk_ne; [exact N2|intros ->; intuition discriminate]. }
   assert (E3 : a_rw m3 = a_rw m /\ a_rwp m3 = a_rwp m).
   { unfold m3. autorewrite with monp monq. repeat split; assumption. }
   clearbody m3. destruct E3 as (E3c & E3d).
   destruct (Z.eq_dec c 901) as [->|NE]; [|apply NF_chk_ne; assumption].
-  apply NF_chk_true; [exact N3|]. rewrite E3c, E3d, C3. reflexivity.
+  apply NF_chk_true; [exact N3|]. rewrite E3c, E3d, (C3 (Act_raw 901 Hc ltac:(cbn; tauto))). reflexivity.
 Qed.
+End RA.
 
 (* the call recorded at the wait *)
 Lemma w_call_TWait : forall m n call mx t i g, w_call (mon_step m (TWait n call mx t i g)) = call.
